@@ -1018,7 +1018,7 @@ func init() {
 
 func init() {
 	register(&Rule{
-		ID: "C08.R10", Props: []string{"C08", "C17", "C04"}, Min: 1, // C04: a loop variable shadows a root variable of the same name for the whole path
+		ID: "C08.R10", Props: []string{"C08", "C17", "C04", "C05"}, Min: 1, // C04: a loop variable shadows a root variable of the same name for the whole path
 		Doc: "the root data is the last resort for a name, never a second opinion: wherever a Stack method looks a name up in the root data (ResolveValue on the rootData field — the originally filled struct or map, the lowest-precedence source), no path leads there from a successful scope lookup (a hit in one of the scope maps, or Lookup reporting ok). A path that falls back to the root data after the scopes did define the name — e.g. because walking the rest of a dotted path failed — answers from a source that Assign or front-matter had overridden",
 		Run: func(p *Prog, c *Ctx) {
 			n := 0
